@@ -1,6 +1,7 @@
 package interp
 
 import (
+	"errors"
 	"fmt"
 	"go/types"
 	"math"
@@ -766,6 +767,28 @@ func ufReal(name string, bs []byte) (uint64, bool) {
 	if len(parts) < 3 {
 		return 0, false
 	}
+	// ParseInt_range_b10_s64_L3 / ParseFloat_range_s64_L5: is the failure a range error?
+	if parts[1] == "range" {
+		var err error
+		switch parts[0] {
+		case "ParseInt":
+			base, _ := strconv.Atoi(parts[2][1:])
+			bits, _ := strconv.Atoi(parts[3][1:])
+			_, err = strconv.ParseInt(string(bs), base, bits)
+		case "ParseFloat":
+			bits, _ := strconv.Atoi(parts[2][1:])
+			_, err = strconv.ParseFloat(string(bs), bits)
+		default:
+			return 0, false
+		}
+		if err == nil {
+			return 0, false
+		}
+		if errors.Is(err, strconv.ErrRange) {
+			return 1, true
+		}
+		return 0, true
+	}
 	b2u := func(b bool) uint64 {
 		if b {
 			return 1
@@ -773,6 +796,9 @@ func ufReal(name string, bs []byte) (uint64, bool) {
 		return 0
 	}
 	s := string(bs)
+	switch parts[0] {
+	case "ParseInt" + "":
+	}
 	switch parts[0] {
 	case "ParseBool":
 		v, err := strconv.ParseBool(s)
@@ -990,7 +1016,12 @@ func (m *Machine) RunPath(entry *ssa.Function, sample bool) (res PathResult) {
 					m.failure = &Failure{Kind: "panic", Msg: "uncaught panic: " + res.Detail, Nondets: nd, Obs: obs}
 				}
 			default:
-				panic(r)
+				// a defect of the engine itself: the path is undecided, never a verdict
+				res.End, res.Detail = "unsupported", fmt.Sprintf("engine panic: %v", r)
+				if len(res.Detail) > 160 {
+					res.Detail = res.Detail[:160]
+				}
+				m.depth = 0
 			}
 		}
 		switch res.End {
